@@ -160,6 +160,8 @@ func (tmg *TCPMuxGroup) worker() {
 			tmg.acceptCh <- c
 		})
 		if err != nil {
+			// the group was closed while handing the connection off, nobody will serve it
+			c.Close()
 			return
 		}
 	}
